@@ -268,12 +268,18 @@ pub fn check(rec: &RunRecord, ops: &[&Op], reg: &Reg, which: &Which, cells: &mut
                 }
                 let (_, eargs, ectx) = enters[0];
                 for a in h.args {
-                    if eargs[a.name] != args[a.name] {
+                    // a member that was left out: the forwarded default, else (an `Option`) nothing
+                    let sent: Value = match args.get(a.name) {
+                        Some(v) => v.clone(),
+                        None if !a.default.is_empty() => serde_json::from_str(a.default).unwrap_or(Value::Null),
+                        None => Value::Null,
+                    };
+                    if eargs[a.name] != sent {
                         out.push(Finding::new(
                             "C02",
                             "c02.args",
                             op.idx,
-                            format!("{}: {} parameter `{}` got {} but {} was sent", d.cid(), hid, a.name, eargs[a.name], args[a.name]),
+                            format!("{}: {} parameter `{}` got {} but {} was sent", d.cid(), hid, a.name, eargs[a.name], sent),
                         ));
                     }
                 }
